@@ -1,5 +1,6 @@
 (** C07 — a rejected event has no effect.  Property theorems only. *)
 From TT Require Import Tunnel.ReceiverAbs Tunnel.ReceiverInv Tunnel.ReceiverAbsProofs Tunnel.ReceiverMisc.
+From TT Require Import Judge.RecvOk Judge.RecvOkProofs.
 From stdpp Require Import gmap.
 Local Open Scope N_scope.
 
@@ -21,6 +22,12 @@ Theorem C07_filtered_stream_abstract : forall a evs,
   arun a (accepted_only a evs) =
   (List.filter (fun o => match o with Accepted => true | _ => false end) os, a').
 Proof. exact arun_filter. Qed.
+
+(** Link to the check: the model's own observations pass [ok_c07] (a rejected step makes no call
+    and leaves the snapshot unchanged) on every history from every state. *)
+Theorem C07_judge_ok_on_model : forall steps h,
+  ok_c07 (snap_of (h_st h)) (map iobs_of (hist_run h steps)) = true.
+Proof. exact ok_c07_model. Qed.
 
 Example C07_example :
   crun rs_default (mk_w 0 []) [ESpanEntered 3; ENewSpan 1 None 9 []; ESpanDropped 1]
